@@ -27,6 +27,10 @@ EvChecks(ev, t) ==
           ELSE Untouched(st, t)
      [] ev.ev = "withdraw" ->
           IF ev.res = "ok" THEN WithdrawChecks(st, ev.args.amt, t) ELSE Untouched(st, t)
+     \* the direct withdrawal message hands in no cw20 LP tokens: it must be refused
+     [] ev.ev = "wdirect" ->
+          (IF ev.res = "ok" THEN WithdrawChecks(st, ev.args.amt, t) ELSE Untouched(st, t))
+          \o << <<"C04.withdraw.only-against-LP-tokens", ev.res # "ok">> >>
      [] ev.ev = "collect" ->
           IF ev.res = "ok" THEN CollectChecks(st, t) \o CollectLedgerChecks(st, t) ELSE Untouched(st, t)
      [] OTHER -> << <<"TRACE.unknown-event", FALSE>> >>)
